@@ -524,8 +524,17 @@ class Engine:
                     env[v] = st.heap[env[k]]
 
     # ---- constants / operands
-    def const(s, txt, sub, st):
+    def const(s, txt, sub, st, f=None):
         txt = txt.strip()
+        pm = re.search(r'::promoted\[(\d+)\]$', txt)
+        if pm and f is not None:
+            c = s.consts.get(f.name + '::promoted[%s]' % pm.group(1))
+            if isinstance(c, Fn):
+                outs = list(s.run(c, [], sub, st))
+                if len(outs) == 1 and outs[0][0] == 'ret':
+                    st.heap.update(outs[0][2].heap)      # the promoted temporary lives on
+                    return outs[0][1]
+            raise Unsupported('promoted const ' + txt)
         m = re.match(r'^(-?\d+)_(\w+)$', txt)
         if m:
             return BV(int(m.group(1)), INT[m.group(2)])
@@ -568,8 +577,8 @@ class Engine:
         if o.startswith('no_retag '):
             return s.op(f, env, st, o[9:], sub)
         if o.startswith('const '):
-            return s.const(o[6:], sub, st)
-        return s.const(o, sub, st)
+            return s.const(o[6:], sub, st, f)
+        return s.const(o, sub, st, f)
 
     def discr(s, v):
         if isinstance(v, tuple) and len(v) == 3 and v[0] == 'variant':
@@ -653,6 +662,9 @@ class Engine:
         m = re.match(r'^([\w:]+?)(::<.*>)?::([A-Z]\w*)$', rv)
         if m and not rv.startswith('const'):
             return mk_enum(m.group(1).split('::')[-1], m.group(3))
+        m = re.match(r'^\{closure@[^}]*\} \{ (.*) \}$', rv)
+        if m:       # closure with captured variables: an aggregate of its captures
+            return Agg('closure', tuple(s.op(f, env, st, x.split(':', 1)[1], sub) for x in split_top(m.group(1))))
         m = re.match(r'^([\w:]+?)(::<.*?>)? \{ (.*) \}$', rv)
         if m:
             return Agg(m.group(1).split('::')[-1], tuple(s.op(f, env, st, x.split(':', 1)[1], sub) for x in split_top(m.group(3))))
@@ -757,6 +769,7 @@ class Engine:
                 return
             m = re.match(r'^(.*?) = (.*)$', stm)
             if m:
+                s.sync_aliases(env, st)      # locals whose address was taken may have been written through it
                 dst = m.group(1).strip()
                 v = s.rvalue(f, env, st, m.group(2), sub, f.locals.get(dst))
                 s.write(f, env, st, dst, v, sub)
@@ -945,7 +958,9 @@ class Engine:
                 x = o.payload['Some'][0]
                 oid = next(s.oid)
                 stS.heap[oid] = x
-                for r_ in s.run(cf, [args[1], LRef(oid, ())], sub, stS, depth + 1):
+                eoid = next(s.oid)
+                stS.heap[eoid] = args[1]
+                for r_ in s.run(cf, [LRef(eoid, ()), LRef(oid, ())], sub, stS, depth + 1):
                     if r_[0] == 'panic':
                         outs.append(r_)
                         continue
@@ -1028,6 +1043,45 @@ class Engine:
         m = re.match(r'^core::slice::<impl \[.*\]>::iter$', c) or re.match(r'^Vec::<.*>::iter$', c)
         if m and isinstance(args[0], LRef):
             return R(Agg('SliceIter', (args[0], 0)))
+        m = re.match(r'^core::slice::<impl \[.*\]>::iter_mut$', c) or re.match(r'^Vec::<.*>::iter_mut$', c)
+        if m and isinstance(args[0], LRef):
+            return R(Agg('SliceIter', (args[0], 0)))
+        m = re.match(r'^<core::slice::Iter(?:Mut)?<.*> as Iterator>::find::<\{closure@(.*?)\}>$', c)
+        if m:
+            it = s.deref_local(st, args[0])
+            vref, idx = it.fields
+            v = s.deref_local(st, vref)
+            if not (isinstance(v, Agg) and v.ty == 'Vec'):
+                raise Unsupported('find over a non-concrete sequence')
+            cf = s.find_closure(m.group(1))
+            if cf is None:
+                raise Unsupported('closure body not found: ' + m.group(1))
+            elems = v.fields[0]
+            outs = []
+            frontier = [st.fork(st.pc)]          # states in which no earlier element matched
+            for i in range(idx, len(elems)):
+                nxt = []
+                for st1 in frontier:
+                    eref = LRef(vref.oid, vref.path + (0, i))
+                    oid = next(s.oid)
+                    st1.heap[oid] = eref
+                    eoid = next(s.oid)
+                    st1.heap[eoid] = args[1]              # closures are called through `&mut self`
+                    for r_ in s.run(cf, [LRef(eoid, ()), LRef(oid, ())], sub, st1, depth + 1):
+                        if r_[0] == 'panic':
+                            outs.append(r_)
+                            continue
+                        b, st2 = r_[1], r_[2]
+                        hit = z3.And(st2.pc, b == 1)
+                        if s.feasible(hit):
+                            outs.append(('ret', mk_enum('Option', 'Some', [eref]), st2.fork(hit)))
+                        miss = z3.And(st2.pc, b == 0)
+                        if s.feasible(miss):
+                            nxt.append(st2.fork(miss))
+                frontier = nxt
+            for st1 in frontier:
+                outs.append(('ret', mk_enum('Option', 'None'), st1))
+            return outs
         m = re.match(r'^<core::slice::Iter<.*> as Iterator>::collect::<Vec<.*>>$', c)
         if m:
             it = args[0]
